@@ -99,6 +99,18 @@ def holdsC01 (inp : Bytes) (obs : ParseObs) : Bool :=
   | .ok segs => flattenRaws segs == inp
   | .err .. => true
 
+/-- the span of every expression node is exactly one expression: parsed on its own (by the
+    model) the node's raw text yields that single node again.  A node that swallowed bytes
+    in front of its expression (a `$` consumed by an abandoned attempt) fails this: those
+    bytes would not reach the driver. -/
+def exprSpansExact (E : Env) (obs : ParseObs) : Bool :=
+  match obs with
+  | .ok segs => segs.all fun s => s.kind == .bypass ||
+      (match parse { E with inp := s.raw } with
+       | .ok [one] => one.toOSeg s.raw == s
+       | _ => false)
+  | .err .. => true
+
 /-! ### C02: literals and comments are opaque -/
 
 /-- spans of the observed nodes, by cumulative length -/
